@@ -40,6 +40,7 @@ func c06(c *Ctx) (*report.Result, error) {
 	res.RuleDoc["O6.3"] = "relay identity: what is sent to one side is the value received from the other, with no store through it in between"
 	res.RuleDoc["O6.4"] = "every abnormal event ends the loop: from a receive error, a failed Send and an unknown message kind all paths reach return without another iteration"
 	res.RuleDoc["O6.5"] = "no helper goroutine can be stranded: a goroutine that sends on an unbuffered channel created by its parent must not have the parent's only receive sit in a select with another arm"
+	res.RuleDoc["O6.7"] = "proxy shutdown ends open pass-through streams: the forwarder does not watch the proxy lifetime, so in TCP mode the client connection it forwards on must be closed by the lifetime itself - buildTLSTCPClient schedules Close of the connection it creates with context.AfterFunc(lifetime, ..), not behind a GracefulStop (which waits for the very handlers that only the close releases)"
 	res.RuleDoc["O6.6"] = "mode dispatch: handleStream reaches forwarder.Run exactly for the default and LCM modes"
 
 	relays := []struct {
@@ -403,6 +404,7 @@ func c06(c *Ctx) (*report.Result, error) {
 
 	res.Explanation = "SSA of proxy.StreamForwarder.Run / forwardReplicationMessages / forwardAcks / startListener and handleStream: deferred latch-trip and wg.Done cover every exit; every blocking point (relay select, listener hand-off) has the latch as an alternative; value identity between what is received from one side and sent to the other; control flow from every abnormal event to return without re-entering the loop; a pattern rule for helper goroutines that can be stranded on an unbuffered channel; constant dispatch on the shard-count mode. Decides the shutdown wiring and relay faithfulness on every path; does not decide message ordering inside the gRPC libraries or timing."
 	res.Assumptions = []string{"channel.ShutdownOnce.Channel() is closed by Shutdown()", "cancelling the stream context releases a blocked client Recv"}
+	checkClientClosedByLifetime(c, res, "O6.7")
 	return res, nil
 }
 
@@ -767,4 +769,50 @@ func checkModeDispatch(c *Ctx, res *report.Result) {
 // depConstLocal reads a string constant of a module package.
 func depConstLocal(c *Ctx, rel, name string) (string, bool) {
 	return pkgConstString(c, rel, name)
+}
+
+// checkClientClosedByLifetime: see O6.7.
+func checkClientClosedByLifetime(c *Ctx, res *report.Result, rule string) {
+	f := resolve(c, res, rule, anchor{"proxy", "", "buildTLSTCPClient"})
+	if f == nil {
+		return
+	}
+	ok := false
+	why := "no context.AfterFunc(lifetime, ..) that closes the client connection was found in buildTLSTCPClient"
+	for _, call := range flow.Calls(f) {
+		cc := call.Common()
+		if !flow.IsCallTo(cc, "context", "", "AfterFunc") || len(cc.Args) != 2 {
+			continue
+		}
+		if _, isParam := flow.Strip(flow.ResolveLoad(cc.Args[0])).(*ssa.Parameter); !isParam {
+			why = "AfterFunc is not registered on the lifetime parameter"
+			continue
+		}
+		cl, _ := closureFn(cc.Args[1])
+		if cl == nil {
+			continue
+		}
+		var closeCall, stop ssa.Instruction
+		for _, k := range flow.Calls(cl) {
+			kc := k.Common()
+			if cal := flow.StaticCallee(kc); cal != nil && cal.Name() == "Close" && cal.Signature.Recv() != nil && flow.NamedIs(cal.Signature.Recv().Type(), grpcPkg, "ClientConn") {
+				closeCall = k
+			}
+			if kc.IsInvoke() && kc.Method.Name() == "Close" {
+				closeCall = k
+			}
+			if cal := flow.StaticCallee(kc); cal != nil && (cal.Name() == "GracefulStop" || cal.Name() == "Stop") {
+				stop = k
+			}
+		}
+		switch {
+		case closeCall == nil:
+			why = "the lifetime callback does not close the client connection"
+		case stop != nil && flow.InstrDominates(stop, closeCall):
+			why = "the client connection is closed only after the server was stopped gracefully: GracefulStop waits for the open stream handlers, and those only end when the client connection is closed"
+		default:
+			ok = true
+		}
+	}
+	res.Check(ok, rule, "buildTLSTCPClient: the client connection is closed when the lifetime ends", fnPos(c.Prog, f), "context.AfterFunc(lifetime, client.Close)", why+": an open pass-through stream survives proxy shutdown (both relay goroutines keep running)")
 }
